@@ -186,10 +186,11 @@ def replay(obj):
 LEVEL_TEXT = ('Partial. Proved on the tables regenerated from akn_text.xsl, akn.peg and types.py: every element the hierarchical template of the stylesheet '
               'matches is printed with a keyword that the grammar reads and that the synonym table maps back to the same element, and every hierarchical '
               'or speech keyword of the grammar gives an element that template matches (C05_unparsed_keyword_parses_back, C05_keywords_have_templates); the Gallina model of the unparser has a branch for '
-              'exactly the elements the stylesheet has templates for (C05_templates_are_modelled). '
+              'exactly the elements the stylesheet has templates for (C05_templates_are_modelled), and over that model: trees equal up to their eId attributes '
+              'unparse to the same text in every context, so the unparsed text does not depend on eIds (C05_unparse_up_to_eids, C05_unparse_ignores_eids). '
               'The round trip itself is not a theorem: it is decided by the oracle on the implementation: identity of parse(unparse(x)) with eIds, '
               'a no-op second round trip, and fragment round trips for every element kind, on sampled documents of the C04 specification generator x seven '
               'roots; the stylesheet is modelled in full (Model/Unparse.v, Model/UnparseDoc.v) and tied to libxslt by the xslstr and unp stages. Documents from forgiving-mode input are not '
               'claimed (listed findings).')
 LEVEL_NOTE = 'Trusted: Coq kernel (vm_compute table checks); translators; hand model of the stylesheet tied by sampling (unp, xslstr stages).'
-TECHNIQUE = 'Rocq proof (stylesheet/grammar/synonym table theorems) + round-trip oracle on sampled generated documents and fragments + differential run of the stylesheet string templates against the Gallina model'
+TECHNIQUE = 'Rocq proof (stylesheet/grammar/synonym table theorems; the unparser model is invariant under eId changes) + round-trip oracle on sampled generated documents and fragments + differential run of the stylesheet string templates against the Gallina model'
